@@ -359,14 +359,15 @@ where
         if let Some((line_num, pos, byte)) = self.first_byte()? {
             if byte == b'>' {
                 self.buf_pos.start = pos;
-                self.position.byte = pos as u64;
-                self.position.line = line_num as u64;
+                // `position` holds the lines/bytes already skipped by first_byte()
+                self.position.byte += pos as u64;
+                self.position.line += line_num as u64;
                 self.search_pos = pos + 1;
                 return Ok(true);
             } else {
                 self.state = State::Finished;
                 return Err(Error::InvalidStart {
-                    line: line_num,
+                    line: self.position.line as usize + line_num,
                     found: byte,
                 });
             }
@@ -375,10 +376,13 @@ where
         Ok(false)
     }
 
+    // Searches the first non-empty line and returns its line number and
+    // position relative to the current buffer, along with the first byte.
+    // The number of empty lines and bytes that were already removed from the
+    // buffer are stored in `self.position`.
     fn first_byte(&mut self) -> Result<Option<(usize, usize, u8)>, Error> {
-        let mut line_num = 0;
-
         while fill_buf(&mut self.buf_reader)? > 0 {
+            let mut line_num = 0;
             let mut pos = 0;
             let mut last_line_len = 0;
             for line in self.get_buf().split(|b| *b == b'\n') {
@@ -391,8 +395,12 @@ where
             }
             // If an orphan '\r' is found at the end of the buffer,
             // we need to move it to the start and re-search the line
-            self.buf_reader.consume(pos - 1 - last_line_len);
+            let consumed = pos - 1 - last_line_len;
+            self.buf_reader.consume(consumed);
             self.buf_reader.make_room();
+            // the last (incomplete) line will be searched again
+            self.position.byte += consumed as u64;
+            self.position.line += line_num as u64 - 1;
         }
         Ok(None)
     }
